@@ -134,7 +134,7 @@ func scrubbedEnv(gomax string) []string {
 	if os.Getenv("VERIF_RACE") != "" {
 		dir := filepath.Join(os.TempDir(), fmt.Sprintf("verif-race-%d", os.Getpid()))
 		os.MkdirAll(dir, 0o755)
-		env = append(env, "GORACE=log_path="+filepath.Join(dir, "r")+" halt_on_error=0 history_size=3", "VERIF_RACE_LOG="+filepath.Join(dir, "r"))
+		env = append(env, "GORACE=log_path="+filepath.Join(dir, "r")+" halt_on_error=0 exitcode=0 history_size=3", "VERIF_RACE_LOG="+filepath.Join(dir, "r"))
 	}
 	for _, k := range []string{"VERIF_SCHED_TRACE", "VERIF_DEBUG"} {
 		if v := os.Getenv(k); v != "" {
